@@ -13,6 +13,7 @@ import os
 import shutil
 from pathlib import Path
 
+import copy
 from tcv import gen, pipeline as pl
 from tcv.quiet import quiet
 
@@ -98,6 +99,20 @@ def run_case(ctx, i, root, reqs, metas):
     spec = gen.gen_key_spec(rng, alphabet=gen.SAFE, keys=gen.SAFE, kinds=KINDS20, mode='name')
     scenario = rng.choice(SCENARIOS)
     pfile = spec['files'].get('p.json', spec['files']['main.json'])
+    if rng.random() < 0.5:
+        # declaration order is not dependency order
+        rng.shuffle(pfile['tasks'])
+    if 'p.json' in spec['files'] and ' as ' in spec['files']['main.json']['uses'][0] and rng.random() < 0.4:
+        # the same task classes a second time, from another config file with other values, under another namespace
+        q = copy.deepcopy(pfile)
+        for k in [k for k in q if k not in ('tasks', 'uses')]:
+            if rng.random() < 0.6:
+                q[k] = gen.gen_value(rng, 1, 2, gen.SAFE, gen.SAFE) if not isinstance(q[k], str) or not q[k].startswith('{') else q[k]
+        path_keys = {p_.get('nic') or p_['name'] for c in spec['classes'].values() for p_ in c['params'] if p_.get('dtype') == 'path'}
+        for k in path_keys & set(q):
+            q[k] = pfile[k]
+        spec['files']['q.json'] = q
+        spec['files']['main.json']['uses'].append('@cfg/q.json as ' + rng.choice(['second', 'n2::x']))
     if rng.random() < 0.3:
         # one large parameter value, so that some result files exceed one copy buffer / one page
         cands = [k for k in pfile if k not in ('tasks', 'uses') and isinstance(pfile[k], (str, list))]
@@ -227,7 +242,9 @@ def run_case(ctx, i, root, reqs, metas):
             migrated = {t['name'] for t in tasks if t['persist'] and t['name'] in computed}
             expect_has = migrated | pre_native
             has = {n for n in names if chain.tasks[n].has_data}
-            if has != expect_has:
+            # (judged by location: two names of one computation share one result — C02)
+            newloc = {t['name']: t['new'] for t in tasks}
+            if {newloc[n] for n in has if n in newloc} != {newloc[n] for n in expect_has if n in newloc}:
                 ctx.fail('target results are not exactly those of the computed persisting tasks', case,
                          {'missing': sorted(expect_has - has), 'surplus': sorted(has - expect_has)})
             mod.RUNLOG.clear()
